@@ -184,7 +184,8 @@ def _cmp_index(ds, i, exp, out):
         return True
     if isinstance(exp, Err):
         if got[0] == 'val' or got[1] != exp.exc:
-            out.append(('index-error-lost', f'ds[{tag}] gave {got[:2]}, expected {exp.exc} raised'))
+            out.append(('index-error-lost' + (f':{got[1]}' if got[0] == 'exc' else ''),
+                        f'ds[{tag}] gave {got[:2]}, expected {exp.exc} raised'))
             return False
         return True
     if got[0] != 'val' or got[1] != canon(exp):
